@@ -140,6 +140,7 @@ def run_property(pid, modname, tier, seed=0, procs=None):
         second = []
         for res in pool.imap_unordered(_work, first):
             results.append(res)
+            _progress(res)
             if res.get("phase") == "expand" and res.get("pending"):
                 j = jd[res["job"]]
                 for ch in _chunks(res["pending"], procs * 2):
@@ -147,7 +148,17 @@ def run_property(pid, modname, tier, seed=0, procs=None):
                 res["pending"] = []
         for res in pool.imap_unordered(_work, second):
             results.append(res)
+            _progress(res)
     return finish(pid, tier, seed, meta, jd, results, t_start)
+
+
+def _progress(res):
+    if not os.environ.get("SYMX_JOBLOG"):
+        return
+    st = res.get("stats", {})
+    print("job done: %-70s %s paths=%s solver=%.0fs wall=%.0fs pending=%d %s" % (
+        res["job"][:70], res.get("phase"), st.get("paths"), st.get("solver_s", 0), res.get("elapsed", 0),
+        len(res.get("pending", [])), "FATAL" if "fatal" in res else ""), file=sys.stderr, flush=True)
 
 
 def finish(pid, tier, seed, meta, jd, results, t_start):
